@@ -5,7 +5,7 @@
      nodes    : n, (id lon lat tags meta)*
      ways     : n, (id nodes:(id lon lat)* tags meta area)*     area = what w.Polygon() answered
      relations: n, (id members:(type ref role orient nodes:(id lon lat)* )* tags meta)*
-       tags = n (k v)* ; meta = ts(0 = zero time) version changeset user uid ; type 1 node 2 way 3 relation
+       tags = n (k v)* ; meta = has_ts ts version changeset user uid ; type 1 node 2 way 3 relation
      unchanged: bool     the deep copy of the input taken before all runs equals the input after
      runs     : n, (optbits same features)*      optbits = 1 NoID | 2 NoMeta | 4 NoRelM | 8 InclInvalid
        same   : bool     converting a second time gave the identical observation
@@ -34,8 +34,8 @@ Section Parse.
     i <- pnat ;; match nth_error strtab i with Some s => ret s | None => pfail end.
   Definition ptags : P tags := plist (ppair pstr pstr).
   Definition pmeta : P meta :=
-    ts <- pint ;; v <- pint ;; c <- pint ;; u <- pstr ;; uid <- pint ;;
-    ret {| mt_ts := if ts =? 0 then None else Some ts; mt_version := v; mt_changeset := c;
+    tsf <- pbool ;; ts <- pint ;; v <- pint ;; c <- pint ;; u <- pstr ;; uid <- pint ;;
+    ret {| mt_ts := if tsf then Some ts else None; mt_version := v; mt_changeset := c;
            mt_user := u; mt_uid := uid |}.
   Definition petype : P etype :=
     t <- pint ;;
